@@ -141,7 +141,7 @@ func intLimits(dt ref.DType) (lo, hi int64) {
 var f32Specials = []uint32{
 	0x00000000, 0x80000000, // ±0
 	0x00000001, 0x80000001, // ±smallest subnormal
-	0x007fffff, // largest subnormal
+	0x007fffff,             // largest subnormal
 	0x00800000, 0x80800000, // ±smallest normal
 	0x3f800000, 0xbf800000, // ±1
 	0x7f7fffff, 0xff7fffff, // ±max
